@@ -525,6 +525,75 @@ void case_c06(Args const& a, std::uint64_t c)
 	w.teardown();
 }
 
+// ---------------------------------------------------------------- C05: a connection whose socket objects are replaced (moved) between phases
+// Phases of one-directional traffic; between two phases, at quiescence, a side that has nothing outstanding (it was
+// only writing, or was told not to post reads) is move-constructed into a new object and the old one destroyed.
+// The stream must carry on exactly where it was: counters the move constructor forgets or copies from the wrong
+// member show as missing, duplicated or misplaced bytes in the next phase.
+void case_c05_moves(Args const& a, std::uint64_t c)
+{
+	Rng rng(hcomb(hcomb(a.seed, 0xC05C), c));
+	World w(a, rng);
+	w.A = addr("10.0.0.1"); w.B = addr("10.0.0.2");
+	w.mtu = pick_mtu(rng, false);
+	w.net.def_mtu = w.mtu;
+	w.desc = fmt("C05 moved sockets mtu=%d", w.mtu);
+	route_setup(w, rng.coin(1, 3), true, 3);
+	w.build();
+	w.fault = std::make_shared<Fault>(&w.log, w.na.get(), &rng);
+	{
+		std::shared_ptr<Fault> f = w.fault;
+		w.net.net_extra = [f](ip::address, ip::address) { return std::static_pointer_cast<sim::sink>(f); };
+	}
+	// single drops and delays only: a segment dropped twice in a row by the fault sink with nothing else in flight is
+	// never re-sent (no retransmission timer), which would only cost coverage here
+	w.fault->tail_drop_pct = rng.coin() ? rng.choose(4) : 0;
+	w.fault->tail_delay_pct = rng.coin() ? rng.choose(10) : 0;
+	w.fault->delay_unit_ns = rng.pick(std::vector<std::int64_t>{1000, 1000000, 30000000});
+	Conn& cn = w.add_conn();
+	w.traffic_enabled = false;
+	cn.c.read_limit = 0; cn.s.read_limit = 0; // reads are posted per phase, by the receiving side only
+	w.connect(cn);
+	w.runner->run();
+	if (!cn.connected || !cn.accepted) { account(w); w.teardown(); return; }
+	w.traffic_enabled = true;
+	int const phases = 2 + rng.choose(4);
+	int dir = rng.choose(2);
+	for (int ph = 0; ph < phases; ++ph)
+	{
+		Side& wr = dir == 0 ? cn.c : cn.s; Side& rd = dir == 0 ? cn.s : cn.c;
+		std::uint64_t const len = rng.coin(1, 3) ? std::uint64_t(rng.range(1, 3 * w.mtu)) : std::uint64_t(rng.range(1, 60000));
+		wr.wpat = 1 + rng.choose(4); rd.rstyle = rng.choose(3); rd.rpat = rng.choose(4);
+		wr.goal = wr.credited + len;
+		rd.read_limit = rd.rx + len; // the reader stops posting reads once everything of this phase has arrived
+		w.desc += fmt(" | phase %d: %s %" PRIu64 " bytes", ph, dir == 0 ? "c->s" : "s->c", len);
+		R().cur_desc = w.desc;
+		rd.start_read(); wr.start_write();
+		w.runner->run();
+		final_stream_checks(w);
+		bool const clean = !wr.w_pending && !rd.r_pending && !wr.r_pending && !rd.w_pending && rd.rx == wr.credited && wr.credited == wr.goal;
+		if (!clean) { R().count("moved_socket_cases_cut_short_by_a_stall"); break; }
+		// both sides are idle now: replace one or both socket objects
+		for (int k = 0; k < 2; ++k)
+		{
+			if (!rng.coin(2, 3)) continue;
+			std::unique_ptr<ip::tcp::socket>& sp = k == 0 ? cn.csock : cn.ssock;
+			std::unique_ptr<ip::tcp::socket> n;
+			API(n.reset(new ip::tcp::socket(std::move(*sp))));
+			API(sp.reset());
+			sp = std::move(n);
+			(k == 0 ? cn.c : cn.s).sock = sp.get();
+			R().count("idle_connected_sockets_moved_between_phases");
+			w.desc += k == 0 ? " [client moved]" : " [server moved]";
+		}
+		if (rng.coin(2, 3)) dir = 1 - dir;
+	}
+	check_mtu_and_integrity(w);
+	R().count("moved_socket_cases");
+	account(w, true);
+	w.teardown();
+}
+
 // ---------------------------------------------------------------- C05: integrity under scripted faults, close, reuse
 int const PAT_M = 7;
 
@@ -707,6 +776,7 @@ void run_case(Args const& a, std::uint64_t c)
 {
 	if (a.prop == "C06") case_c06(a, c);
 	else if (a.prop == "C20") case_c20(a, c);
+	else if (a.mode != "patterns" && c % 5 == 4) case_c05_moves(a, c);
 	else case_c05(a, c, a.mode == "patterns");
 }
 
